@@ -37,7 +37,7 @@ def single_readoff(H, D, rows, vecs):
         return None, "ragged result: " + str(e)[:60], calls_ok, unt_all
 
 
-def run_single(ctx, cuqi, thorough, H):
+def prepare(ctx, cuqi, thorough, H):
     import scipy.sparse as sp
     from cuqi.distribution import GMRF, Gaussian
     from cuqi.geometry import Image2D
@@ -98,8 +98,12 @@ def run_single(ctx, cuqi, thorough, H):
         line = f"gauss {1 if is_sparse else 0} {qv(mean.tolist())} {qm(Rd.tolist())} {qm(np.array(vecs).tolist())}"
         items.append(dict(key=f"single:Gaussian:{form}:{kind}:{('sparse-' + fmt) if fmt else 'dense-in'}", desc=desc, D=G, rows=n, dim=n, vecs=vecs, line=line,
                           kind="gauss", full=(n <= 20), stored_sparse=is_sparse))
-    outs = ctx.lean.drive([it["line"] for it in items])
+    return [it["line"] for it in items], items
+
+
+def finish(ctx, cuqi, H, items, outs):
     hist = {}
+    maxdev = [0.0]
     for it, out in zip(items, outs):
         key, desc, D, rows, dim, vecs = it["key"], it["desc"], it["D"], it["rows"], it["dim"], it["vecs"]
         ctx.case("single-draw", desc)
@@ -124,6 +128,10 @@ def run_single(ctx, cuqi, thorough, H):
         if Sm is None:
             ctx.disagree(key, desc, out[:60], "a draw", "model refuses / certificate U^T U = P fails")
             bad = True
+        if Sm is not None and Si.shape == Sm.shape:
+            maxdev[0] = max(maxdev[0], float(np.max(np.abs(Si - Sm) / (1.0 + np.abs(Sm)))))
+        if Sm is None:
+            pass
         elif Si.shape != Sm.shape or not mclose(Si.tolist(), Sm.tolist(), 1e-9):
             j = int(np.argmax(np.abs(Si - Sm).max(axis=0))) if Si.shape == Sm.shape else 0
             ctx.disagree(key, {**desc, "normal_vector": np.asarray(vecs[j]).tolist() if dim <= 10 else f"vector #{j}"},
@@ -147,4 +155,10 @@ def run_single(ctx, cuqi, thorough, H):
                     if not np.allclose(Rd @ (Si[:, 1 + c] - offset), np.eye(dim)[:, j], atol=1e-7):
                         ctx.fail(key, desc, f"sqrtprec (draw - mean) = e_{j}", "differs", "a single draw does not solve the system of the object's own sqrtprec")
                         break
+    hist["tie_max_deviation_vs_tol_1e-9"] = maxdev[0]
     ctx.extra_cov["single_draw"] = hist
+
+
+def run_single(ctx, cuqi, thorough, H):
+    lines, items = prepare(ctx, cuqi, thorough, H)
+    finish(ctx, cuqi, H, items, ctx.lean.drive(lines))
